@@ -31,6 +31,9 @@ func (e *env09) get(n string) (int, bool) {
 
 var c09names = []string{"a", "b", "v"}
 
+// the scope in which contentFor("shared") was (last) defined during the current rendering
+var sharedDef *env09
+
 // source text + reference output (environment chain: constructs push a frame,
 // lookups fall through, let and assignment write the top frame)
 func render09(items []sitem, env *env09, parts map[string]string, ctr *int, src, out *strings.Builder) {
@@ -54,6 +57,34 @@ func render09(items []sitem, env *env09, parts map[string]string, ctr *int, src,
 			}
 			src.WriteString(fmt.Sprintf("<%% %s = %d %%>", it.Name, it.Val))
 			env.vars[it.Name] = it.Val
+		case "define":
+			// contentFor("shared") { probes } : emits nothing here; remembered with its defining scope
+			var bsrc, bout strings.Builder
+			src.WriteString("<% contentFor(\"shared\") { %>")
+			src.WriteString("{")
+			for _, nm := range c09names {
+				src.WriteString(fmt.Sprintf("<%%= if (%s) { %%><%%= %s %%><%% } else { %%>-<%% } %%>", nm, nm))
+			}
+			src.WriteString("}<% } %>")
+			_ = bsrc
+			_ = bout
+			sharedDef = env
+		case "replay":
+			if sharedDef == nil {
+				continue
+			}
+			// contentOf("shared", {v: N}) from wherever we are: rendered in a child of the DEFINING scope
+			src.WriteString(fmt.Sprintf("<%%= contentOf(\"shared\", {v: %d}) %%>", it.Val))
+			inner := &env09{vars: map[string]int{"v": it.Val}, outer: sharedDef}
+			out.WriteString("{")
+			for _, nm := range c09names {
+				if v, ok := inner.get(nm); ok {
+					out.WriteString(fmt.Sprint(v))
+				} else {
+					out.WriteString("-")
+				}
+			}
+			out.WriteString("}")
 		default:
 			inner := &env09{vars: map[string]int{"v": it.Val}, outer: env}
 			var bsrc strings.Builder
@@ -84,7 +115,10 @@ func render09(items []sitem, env *env09, parts map[string]string, ctr *int, src,
 	}
 }
 
-func gen09(r *Rng, depth int) []sitem {
+func gen09(r *Rng, depth int) []sitem { return gen09x(r, depth, true) }
+
+// contentFor("shared") is only defined at the top level, where every inner scope can see it
+func gen09x(r *Rng, depth int, top bool) []sitem {
 	n := 2 + r.Intn(4)
 	var items []sitem
 	for i := 0; i < n; i++ {
@@ -96,10 +130,16 @@ func gen09(r *Rng, depth int) []sitem {
 			items = append(items, sitem{Kind: "let", Name: name, Val: 1 + r.Intn(8)})
 		case x < 6:
 			items = append(items, sitem{Kind: "set", Name: name, Val: 1 + r.Intn(8)})
+		case x < 7 && r.Intn(2) == 0:
+			k := []string{"define", "replay", "replay"}[r.Intn(3)]
+			if k == "define" && !top {
+				k = "replay"
+			}
+			items = append(items, sitem{Kind: k, Val: 1 + r.Intn(8)})
 		default:
 			if depth > 0 {
 				k := []string{"for", "fn", "partial", "content", "blkctx"}[r.Intn(5)]
-				items = append(items, sitem{Kind: k, Val: 1 + r.Intn(8), Body: gen09(r, depth-1)})
+				items = append(items, sitem{Kind: k, Val: 1 + r.Intn(8), Body: gen09x(r, depth-1, false)})
 			} else {
 				items = append(items, sitem{Kind: "probe", Name: name})
 			}
@@ -121,6 +161,7 @@ func init() {
 			parts := map[string]string{}
 			var src, out strings.Builder
 			ctr := 0
+			sharedDef = nil
 			render09(items, &env09{vars: map[string]int{}}, parts, &ctr, &src, &out)
 			c := RCase{Tmpl: src.String(), Binds: []Bind{{"blkctx", vGo(105)}}, Parts: parts}
 			if len(parts) == 0 {
@@ -144,6 +185,13 @@ func init() {
 					judge(append(append(append([]sitem{}, pre...), sitem{Kind: k1, Val: 3, Body: inner}), tail...), "double")
 				}
 			}
+		}
+		for _, k1 := range kinds {
+			if k1 == "partial" {
+				continue // a partial is a separate Render: it has its own compiler
+			}
+			inner := []sitem{{Kind: "replay", Val: 5}, {Kind: "let", Name: "a", Val: 6}, {Kind: "let", Name: "b", Val: 7}, {Kind: "probe", Name: "a"}, {Kind: "probe", Name: "v"}, {Kind: "replay", Val: 8}, {Kind: "probe", Name: "v"}}
+			judge(append([]sitem{{Kind: "let", Name: "a", Val: 1}, {Kind: "define"}, {Kind: k1, Val: 3, Body: inner}}, tail...), "replay")
 		}
 		n := 120
 		if e.Thorough() {
